@@ -93,7 +93,7 @@ func (o *ownedRun) minted() ([]string, []string) {
 	defer o.s.idp.mu.Unlock()
 	var toks, ids []string
 	for i := 1; i < o.s.idp.counter; i++ {
-		toks = append(toks, fmt.Sprintf("at-%d", i), fmt.Sprintf("rt-%d", i))
+		toks = append(toks, fmt.Sprintf("at-%s-%d", o.s.idp.salt, i), fmt.Sprintf("rt-%s-%d", o.s.idp.salt, i))
 	}
 	for t := range o.s.idp.idTokens {
 		ids = append(ids, t)
